@@ -1,6 +1,7 @@
 import Driver.Proto
 import XsdataModel.Gen.Occurs
 import XsdataModel.Gen.DtdNs
+import XsdataModel.Gen.DtdElem
 open Lean Proto Py Xs.Gen
 
 namespace OpsGen
@@ -82,6 +83,21 @@ def run (op : String) (a : Json) : Option (Except String Json) :=
   | "gen.xsd_occurs" => some do pure <| okSites (occurs (sites (← dParticle (fld a "particle"))))
   | "gen.dtd_sites" => some do pure <| ok (jList jSite (dtdSites (← dContent (fld a "content"))))
   | "gen.dtd_occurs" | "gen.dtd_fields" => some do pure <| okSites (occurs (dtdSites (← dContent (fld a "content"))))
+  | "gen.dtd_elem" => some do
+      let t ← match fld a "type" with
+        | .str "undefined" => pure DtdElemType.undefined
+        | .str "empty" => pure DtdElemType.empty
+        | .str "any" => pure DtdElemType.any
+        | .str "mixed" => pure DtdElemType.mixed
+        | .str "element" => pure DtdElemType.element
+        | _ => .error "bad element type"
+      let c ← match fld a "content" with
+        | .null => pure none
+        | j => (dContent j).map some
+      pure <| ok (match dtdClassFields t c with
+        | .plain fs => jObj [("plain", jList (fun (s : Site) => Json.arr #[jStr s.name, jNat s.min, jNat s.max]) fs)]
+        | .mixedWildcard cs => jObj [("mixed", jList jStr cs)]
+        | .anyTypeWildcard => jObj [("any_extension", Json.bool true)])
   | "gen.dtd_nsmap" => some do
       let dOpt (j : Json) : Except String (Option Str) := match j with
         | .null => pure none
